@@ -269,6 +269,8 @@ def run_check(mod, tier, seed, n_runs=None, workers=None, budget_s=None, quiet=F
         "seeds_per_hour": int(per_kind["search"] / wall_runs * 3600) if wall_runs > 0 else 0,
         "scheduler_steps_total": agg["steps"],
         "simulated_time_s": agg["sim_time"],
+        "simulated_time_measure": getattr(mod, "SIM_TIME_MEASURE",
+                                          "logical time: scheduler steps (see scheduler_steps_total)"),
         "faults_fired": agg["fired"],
         "reach_probes": agg["probes"],
         "probes_at_zero": [p for p in getattr(mod, "EXPECTED_PROBES", []) if not agg["probes"].get(p)],
